@@ -235,6 +235,7 @@ def run(tier, seed):
     else:
         os.environ["TZ"] = saved_tz2
     time.tzset()
+    realclock.boundary_crossed_while_running(chk)
     chk.sample({"subject": "packed chain", "boundaries": "leaf/intermediate/root notBefore/notAfter +-3 s", "rule": "accepted iff notBefore <= now < notAfter for every certificate"})
     # 3b. the attestation certificate itself configured as an anchor (alone, or next to its issuer): its own validity still counts
     for fmt in ("packed", "tpm", "fido-u2f", "apple"):
